@@ -58,3 +58,38 @@ func Deliver(sig os.Signal) int {
 	}
 	return n
 }
+
+// Mark returns the number of registrations so far; together with DeliverRange
+// it addresses the registrations of one simulated process.
+func Mark() int { mu.Lock(); defer mu.Unlock(); return len(regs) }
+
+// DeliverRange is Deliver restricted to registrations [from, to).
+func DeliverRange(from, to int, sig os.Signal) int {
+	mu.Lock()
+	if to > len(regs) {
+		to = len(regs)
+	}
+	var rs []reg
+	if from < to {
+		rs = append(rs, regs[from:to]...)
+	}
+	mu.Unlock()
+	n := 0
+	for _, r := range rs {
+		want := len(r.sigs) == 0
+		for _, s := range r.sigs {
+			if s == sig {
+				want = true
+			}
+		}
+		if !want {
+			continue
+		}
+		select {
+		case r.c <- sig:
+			n++
+		default:
+		}
+	}
+	return n
+}
